@@ -183,6 +183,7 @@ class MultiVector:
         """
         if len(grades) == 1 and isinstance(grades[0], tuple):
             grades = grades[0]
+        grades = tuple(sorted(set(grades)))
 
         vals = {k: getattr(self, self.algebra.bin2canon[k])
                 for k in self.algebra.indices_for_grades[grades] if k in self.keys()}
